@@ -287,7 +287,7 @@ def run_explore(shard, mon, S, p):
         for cls_, (name, a, b) in order:
             if cls_ and 0 not in spent:
                 spent[0] = mon.evaluations  # what the always-explored class used does not count against the shares
-            if not cls_ and mon.evaluations >= 0.45 * budget:
+            if not cls_ and mon.evaluations >= (0.45 if gran == "line" else 0.2) * budget:
                 mon.tally("pairs_skipped_budget")  # even the always-first class may not take more than 45 % of a shard
                 continue
             if cls_ and mon.evaluations >= ceiling[cls_] + spent.get(0, 0):
